@@ -283,9 +283,9 @@ def shard_complete(s):
         if len(set(pat)) > 1:
             acc.nontrivial += 1
         for cached in (False, True):
-            # deterministic pair swap: all (i, j)
-            for i in range(L):
-                for j in range(L):
+            # deterministic pair swap: all (i, j), positions also counted from the end (ordinary Python indices -L..-1)
+            for i in range(-L, L):
+                for j in range(-L, L):
                     parent = make_parent(seq, cached)
                     before = snap(parent)
                     case = {"kind": "move", "seq": seq, "cached": cached, "move": "swapRes", "ij": [i, j], "frozen": [],
@@ -659,7 +659,7 @@ def run(tier, seed, t0):
     return core.finish(
         PROP, tier, seed, acc, t0,
         rule="state = one parent sequence (every charge pattern of length 1..%d in a distinct-letter spelling, delta-max cached "
-             "or not). swapRes: all (i,j). full_shuffle, swapRandChargeRes, get_shuffled_sequence, SequencePermutants.get_permutant: "
+             "or not). swapRes: all (i,j) with -L <= i,j < L. full_shuffle, swapRandChargeRes, get_shuffled_sequence, SequencePermutants.get_permutant: "
              "COMPLETE tree of all outcomes of the internal random draws (scripted random.Random: every value of every _randbelow, "
              "both sides of every float comparison) x every frozen subset (as %s) and five frozen sets with members outside the sequence (len, len+1, -1, 10^6). permute_block_swap / permute_cluster_charges: "
              "%d patterns x %d frozen sets, all tapes within %d deviation(s) of %d base tape(s) (VERIF_SEED-derived), horizon 60 choice "
